@@ -3,6 +3,7 @@ import ScenicModel.Props.C05Support
 import ScenicModel.Props.C05Delayed
 import ScenicModel.Gen.ExprTables
 import ScenicModel.Gen.SupportFormulas
+import ScenicModel.Gen.DelayedShapes
 
 /-!
 # C05 — property theorems, instantiated on the data regenerated from /repo
@@ -153,5 +154,32 @@ theorem delayed_eval_final {α} (pre : List (Delayed.Spec α)) (s : Delayed.Spec
     (ctx0 : Delayed.Ctx α) (hwo : Delayed.wellOrdered (s :: post) = true) (hloc : s.local) (q : Nat) :
     s.value (Delayed.run pre ctx0) q = s.value (Delayed.run (pre ++ s :: post) ctx0) q :=
   Delayed.delayed_eval_final pre s post ctx0 hwo hloc q
+
+/-- side condition on generated data: every constructor of derived DelayedArguments in lazy_eval.py
+    (`makeDelayedFunctionCall` for positional **and keyword** arguments, `DelayedArgument.__call__`, the operator
+    handlers, `__getattr__`) unions the required properties of every operand it evaluates -/
+theorem gen_delayed_shapes_wf : delayedShapes.WF = true := by decide
+
+/-- a lifted call over lazily evaluated operands (positional or keyword, nested) used as a specifier value is
+    evaluated against the final values of the properties it refers to, on the shapes extracted from the source -/
+theorem lifted_call_eval_final (I : Nat → List (Bool × Int) → Int) (d : Delayed.DVal) (sets : List Nat)
+    (pre post : List (Delayed.Spec Int)) (ctx0 : Delayed.Ctx Int)
+    (hwo : Delayed.wellOrdered (Delayed.delayedSpec delayedShapes I d sets :: post) = true) :
+    Delayed.headVal (Delayed.evalD I (Delayed.run pre ctx0) d) =
+      Delayed.headVal (Delayed.evalD I (Delayed.run (pre ++ Delayed.delayedSpec delayedShapes I d sets :: post) ctx0) d) :=
+  Delayed.lifted_call_eval_final delayedShapes gen_delayed_shapes_wf I d sets pre post ctx0 hwo
+
+/-- non-vacuity: `with foo f(10, k=<lazy p0>)` evaluated after the provider of `p0` and after the specifier
+    modifying `p0` is well ordered; listed between them it is not -/
+example : Delayed.wellOrdered
+    [⟨[], [0], fun _ _ => 5⟩, ⟨[], [0], fun _ _ => 6⟩,
+     Delayed.delayedSpec delayedShapes (fun _ l => Delayed.headVal l)
+       (.call .fnCall 0 (.arg false (.const 10) (.arg true (.prop 0) .nil))) [1]] = true := by decide
+
+example : Delayed.wellOrdered
+    [⟨[], [0], fun _ _ => 5⟩,
+     Delayed.delayedSpec delayedShapes (fun _ l => Delayed.headVal l)
+       (.call .fnCall 0 (.arg false (.const 10) (.arg true (.prop 0) .nil))) [1],
+     ⟨[], [0], fun _ _ => 6⟩] = false := by decide
 
 end Scenic.C05
